@@ -243,5 +243,12 @@ def scan_assumptions(text):
 
 
 if __name__ == '__main__':
-    r = run_unit(sys.argv[1])
-    print(json.dumps(r, indent=1)[:6000])
+    r = run_unit(sys.argv[1], do_twins='--no-twins' not in sys.argv)
+    if '--json' in sys.argv:
+        print(json.dumps(r, indent=1))
+    else:
+        print(r['status'], r['notes'], r.get('vacuity'))
+        for o in r['obligations']:
+            print(' ', o['function'], o['status'], o['solver_ms'])
+            for d in o.get('detail', []):
+                print('     ', d['message'], '|', d.get('clause'), '|', d.get('at'))
